@@ -16,7 +16,8 @@ J gen_tasks(const std::string& prop, uint64_t run_seed, const std::string& tier)
   knobs.set("stack", (uint64_t)1 << 20);
   knobs.set("protect", 1);
   knobs.set("locale", kn.below(2));      // half of the runs under a process locale whose radix character is a comma
-  knobs.set("fpmode", kn.below(4) == 0 ? 1 : 0);   // a quarter of the runs with FTZ/DAZ set in the thread's MXCSR
+  knobs.set("shared_sink", kn.below(3) == 0 ? 1 : 0);   // a third of the runs: every task describes into the same FILE*
+  knobs.set("fpmode", gen_fpmode(kn));   // the calling thread's floating-point environment: FTZ/DAZ in a quarter of the runs, a directed rounding mode in a quarter
   plan.set("knobs", knobs);
   unsigned nt = (unsigned)(kn.chance(1, 5) ? kn.range(9, 16) : kn.range(2, 8));
   J tasks = J::arr();
@@ -47,6 +48,11 @@ void exec_tasks(const J& plan) {
   std::string prop = g_run.prop;
   bool loc = kn.getu("locale", 0) != 0 && comma_locale(true);
   if (loc) stat_add("runs_under_comma_locale");
+  // a stream shared by all tasks (like stdout): the sink discards, and - unlike the private sinks - is no scheduling point, because a task
+  // parked inside stdio would hold the stream's lock and every other describing task would wait for it forever
+  static cookie_io_functions_t shared_io = {nullptr, [](void*, const char*, size_t n) -> ssize_t { return (ssize_t)n; }, nullptr, nullptr};
+  static int shared_cookie = 0;
+  if (kn.getu("shared_sink", 0)) { g_shared_describe = fopencookie(&shared_cookie, "w", shared_io); if (g_shared_describe) stat_add("runs_with_shared_describe_stream"); }
   // --- solo: each task alone, on the main thread, before any other thread exists
   std::vector<uint64_t> solo(n);
   g_task_mode = true;
@@ -62,7 +68,7 @@ void exec_tasks(const J& plan) {
     solo[i] = g_logs[0].digest;
     if (sa_live_count() != 0 && !failed()) fail("C17", "solo-task-leaves-memory", fmt("task %zu alone left %llu block(s)", i + 1, (unsigned long long)sa_live_count()));
   }
-  if (failed() || g_run.foreign_seen) { g_task_mode = false; if (prot) prot_lib_statics(false); if (loc) comma_locale(false); return; }
+  if (failed() || g_run.foreign_seen) { g_task_mode = false; if (prot) prot_lib_statics(false); if (loc) comma_locale(false); if (g_shared_describe) { fclose(g_shared_describe); g_shared_describe = nullptr; } return; }
   // --- interleaved
   sa_reset(ak); for (int li = 0; li <= SA_MAX_TASKS; li++) g_logs[li].reset();
   std::vector<std::function<void()>> bodies;
@@ -74,6 +80,7 @@ void exec_tasks(const J& plan) {
   if (prot) prot_lib_statics(false);
   if (loc) comma_locale(false);
   g_task_mode = false;
+  if (g_shared_describe) { fclose(g_shared_describe); g_shared_describe = nullptr; }
   uint64_t combined = sr.schedule_hash;
   for (size_t i = 0; i < n && !failed(); i++) {
     combined = hash_comb(combined, g_logs[i + 1].digest);
